@@ -63,6 +63,73 @@ class Real:
         return out
 
 
+class _Hold:
+    """Suspends the awaiting coroutine once (a notify callback that has not returned yet)."""
+
+    def __await__(self):
+        yield self
+
+
+class RealC(Real):
+    """The real class with a notify callback that *suspends*: the block processor's report and the
+    mempool tracker's report come from two tasks, so one call from each source can be inside
+    `await self.notify(...)` while the other source reports.  Ops are applied in the given order;
+    before an op starts, the previous call of the same source is resumed (a task makes one call at a
+    time), the other source's suspended call is resumed or left suspended at random."""
+
+    def __init__(self, rng):
+        super().__init__()
+        self.rng = rng
+        self.inflight = {}
+        self.overlaps = 0
+
+        async def notify(height, touched):
+            self.emits.append((height, frozenset(touched)))
+            await _Hold()
+        self._notify = notify
+        self.n.notify = notify
+
+    def _resume(self, src):
+        co = self.inflight.pop(src, None)
+        if co is not None:
+            try:
+                co.send(None)
+            except StopIteration:
+                return
+            raise RuntimeError('a report suspended twice')
+
+    def apply(self, op):
+        kind = op[0]
+        src = 'M' if kind == 'M' else 'B'
+        other = 'B' if src == 'M' else 'M'
+        self._resume(src)
+        if other in self.inflight:
+            if self.rng is not None and self.rng.random() < 0.4:
+                self._resume(other)
+            else:
+                self.overlaps += 1
+        before = len(self.emits)
+        if kind == 'S':
+            co = self.n.start(op[1], self._notify)
+        elif kind == 'M':
+            co = self.n.on_mempool(set(op[2]), op[1])
+        else:
+            co = self.n.on_block(set(op[2]), op[1])
+        try:
+            co.send(None)
+            self.inflight[src] = co
+        except StopIteration:
+            pass
+        new = self.emits[before:]
+        if len(new) > 1:
+            raise RuntimeError('more than one notify per op')
+        return new[0] if new else None
+
+    def drain(self):
+        for src in list(self.inflight):
+            self._resume(src)
+
+
 def op_line(op):
     if op[0] == 'S':
         return f'S {op[1]}'
@@ -100,9 +167,9 @@ def start_ok(ops):
     return True
 
 
-def direct_check(ops):
+def direct_check(ops, factory=None):
     """Run ops on a fresh real object; return a list of (clause, detail) failures."""
-    real = Real()
+    real = (factory or Real)()
     fails = []
     handed = set()
     emitted = set()
@@ -181,11 +248,11 @@ def gen_random_ops(rng, length, heights):
     return ops
 
 
-def corr_sequences(res, seqs, label):
+def corr_sequences(res, seqs, label, factory=None):
     """Run whole sequences on real + model, compare line by line."""
     lines, expect, index = [], [], []
     for si, ops in enumerate(seqs):
-        real = Real()
+        real = (factory or Real)()
         lines.append('R')
         expect.append('ok')
         index.append((si, -1))
@@ -276,16 +343,27 @@ def exhaustive_direct(res, depth, heights, universe):
     return count
 
 
-def make_violation(ops, fails):
+def _always_overlap():
+    return RealC(None)      # the other source's call is never resumed voluntarily: deterministic
+
+
+def make_violation(ops, fails, overlapping=False):
     clause = fails[0][0]
+    factory = _always_overlap if overlapping else None
 
     def still(sub):
-        f = direct_check(sub)
+        f = direct_check(sub, factory)
         return bool(f) and f[0][0] == clause
+    if not still(ops):
+        # only under the particular overlap schedule that found it: reported unshrunk
+        return {'suite': 'notif', 'clause': clause, 'detail': fails[0][1], 'ops': [op_line(o) for o in ops],
+                'overlapping_calls': 'seeded schedule'}
     small = ddmin(ops, still)
-    f = direct_check(small)
-    return {'suite': 'notif', 'clause': f[0][0], 'detail': f[0][1],
-            'ops': [op_line(o) for o in small]}
+    f = direct_check(small, factory)
+    v = {'suite': 'notif', 'clause': f[0][0], 'detail': f[0][1], 'ops': [op_line(o) for o in small]}
+    if overlapping:
+        v['overlapping_calls'] = 'every report arrives while the other source is still inside notify'
+    return v
 
 
 CORPUS = [
@@ -345,6 +423,26 @@ def run(tier, seed):
                                                         [o for o in s if o[0] == 'B'][1:]))))
     res.sample({'ops': [op_line(o) for o in seqs[0]]})
     res.sample({'ops': [op_line(o) for o in CORPUS[3]]})
+    # 2b. the same sequences with overlapping calls: the notify callback suspends, and the other
+    # source reports while a call is still inside `await self.notify(...)`.  The model is the
+    # sequential one: everything a call does to the pending sets happens before its notify.
+    crng = rng_for(seed, 'notif-concurrent')
+    made = []
+
+    def factory():
+        r = RealC(crng)
+        made.append(r)
+        return r
+    cseqs = seqs[:1000 if tier == 'quick' else 10000] + list(CORPUS)
+    corr_sequences(res, cseqs, 'overlapping calls', factory)
+    for ops in cseqs:
+        f = direct_check(ops, factory)
+        if f:
+            res.violations.append(make_violation(ops, f, overlapping=True))
+            if len(res.violations) >= 3:
+                break
+    res.bump('sequences_with_overlapping_calls', sum(1 for r in made if r.overlaps))
+    res.bump('overlapping_call_pairs', sum(r.overlaps for r in made))
     # 3. exhaustive small scope
     if tier == 'quick':
         exhaustive_dfs(res, 3, [5, 6, 7], [1, 2])
@@ -367,7 +465,7 @@ def _parse_op(line):
 
 def replay(case):
     ops = [_parse_op(l) for l in case['ops']]
-    return [f'{c}: {d}' for c, d in direct_check(ops)]
+    return [f'{c}: {d}' for c, d in direct_check(ops, _always_overlap if case.get('overlapping_calls') else None)]
 
 
 def known_reproduces(finding):
